@@ -4,8 +4,12 @@ import (
 	"bytes"
 	"errors"
 	"fmt"
+	"runtime"
 	"runtime/debug"
+	"sort"
+	"strings"
 	"sync"
+	"sync/atomic"
 	"time"
 
 	"github.com/syndtr/goleveldb/leveldb"
@@ -25,7 +29,7 @@ import (
 type Stats struct {
 	MemComp, L0Comp, NonL0Comp, SeekComp int
 	Reopens, Compacts, Snaps, Iters      int
-	Recovers                             int
+	Recovers, SizeOfs                    int
 	Moves, Reversals, Seeks              int
 	MaxLevels, DeepestLevel              int
 	LargeBatch, TrCommits, TrDiscards    int
@@ -300,6 +304,20 @@ func (e *Env) drainPinned() error {
 	return first
 }
 
+// guarded returns b as the caller of the DB would typically hold it: a slice of a
+// larger buffer whose spare capacity contains other data of the caller. intact
+// reports whether the argument and the bytes behind it are still what they were.
+func guarded(b []byte) (arg []byte, intact func() bool) {
+	const tail = 24
+	buf := make([]byte, len(b)+tail)
+	copy(buf, b)
+	for i := len(b); i < len(buf); i++ {
+		buf[i] = 0xC3 ^ byte(i)
+	}
+	ref := append([]byte{}, buf...)
+	return buf[:len(b)], func() bool { return bytes.Equal(buf, ref) }
+}
+
 func scribble(b []byte) {
 	for i := range b {
 		b[i] = 0xAA
@@ -347,7 +365,11 @@ func (e *Env) checkGet(k []byte) error {
 	if e.reads%3 == 0 {
 		ro = &opt.ReadOptions{DontFillCache: true} // a hit in the block cache is still served from the shared block
 	}
-	got, err := e.DB.Get(k, ro)
+	ka, kIntact := guarded(k)
+	got, err := e.DB.Get(ka, ro)
+	if !kIntact() {
+		return e.fail("Get(%q) modified its key argument or the caller's bytes behind it", k)
+	}
 	if ok {
 		if err != nil {
 			return e.fail("Get(%q): error %v, model has %s", k, err, short(want))
@@ -365,7 +387,10 @@ func (e *Env) checkGet(k []byte) error {
 			e.St.ScribbledTableGets++
 		}
 	}
-	has, herr := e.DB.Has(k, nil)
+	has, herr := e.DB.Has(ka, nil)
+	if !kIntact() {
+		return e.fail("Has(%q) modified its key argument or the caller's bytes behind it", k)
+	}
 	if herr != nil {
 		return e.fail("Has(%q): error %v", k, herr)
 	}
@@ -488,7 +513,8 @@ func (e *Env) Step(i int, op *Op) error {
 		if op.T == "put" {
 			v = op.V.Bytes(e.tag(0))
 		}
-		ka, va := append([]byte{}, k...), append([]byte{}, v...)
+		ka, kIntact := guarded(k)
+		va, vIntact := guarded(v)
 		tgt := e.M
 		if e.Tr != nil {
 			tgt = e.TrM
@@ -507,8 +533,8 @@ func (e *Env) Step(i int, op *Op) error {
 		if err != nil {
 			return e.fail("%s(%q): unexpected error %v", op.T, k, err)
 		}
-		if !bytes.Equal(ka, k) || !bytes.Equal(va, v) {
-			return e.fail("%s(%q): the call modified its argument buffers", op.T, k)
+		if !kIntact() || !vIntact() {
+			return e.fail("%s(%q): the call modified its argument buffers or the caller's bytes behind them", op.T, k)
 		}
 		if e.C.Poison {
 			scribble(ka)
@@ -695,6 +721,34 @@ func (e *Env) Step(i int, op *Op) error {
 		e.St.Reopens++
 		return e.Sweep()
 
+	case "sizeof":
+		// approximate sizes of three nested ranges over one version: offsets grow with the
+		// key, so the sizes are non-negative, additive and bounded by the table bytes on disk
+		ks := [][]byte{e.key(op.K), e.key(op.K + 1), e.key(op.K + 2)}
+		if op.S != nil {
+			ks[1] = e.key(*op.S)
+		}
+		if op.L != nil {
+			ks[2] = e.key(*op.L)
+		}
+		sort.Slice(ks, func(i, j int) bool { return e.Cmp.Compare(ks[i], ks[j]) < 0 })
+		a, aIntact := guarded(ks[0])
+		b, bIntact := guarded(ks[1])
+		c, cIntact := guarded(ks[2])
+		sz, err := e.DB.SizeOf([]util.Range{{Start: a, Limit: b}, {Start: a, Limit: c}, {Start: b, Limit: c}})
+		if err != nil {
+			return e.fail("SizeOf: unexpected error %v", err)
+		}
+		if !aIntact() || !bIntact() || !cIntact() {
+			return e.fail("SizeOf modified its range arguments or the caller's bytes behind them")
+		}
+		total := int64(e.FS.TotalBytes(storage.TypeTable))
+		if len(sz) != 3 || sz[0] < 0 || sz[2] < 0 || sz[0]+sz[2] != sz[1] || sz[1] > total {
+			return e.fail("SizeOf([%q,%q) [%q,%q) [%q,%q)) = %v: not additive, negative or above the %d table bytes in storage", ks[0], ks[1], ks[0], ks[2], ks[1], ks[2], sz, total)
+		}
+		e.St.SizeOfs++
+		return nil
+
 	case "recover":
 		// settled shutdown, then rebuild the DB from its table and journal files
 		if e.Tr != nil {
@@ -846,7 +900,11 @@ func (e *Env) Step(i int, op *Op) error {
 
 func (e *Env) trGet(k []byte) error {
 	want, ok := e.TrM.Get(k)
-	got, err := e.Tr.Get(k, nil)
+	ka, kIntact := guarded(k)
+	got, err := e.Tr.Get(ka, nil)
+	if !kIntact() {
+		return e.fail("Transaction.Get(%q) modified its key argument or the caller's bytes behind it", k)
+	}
 	if ok {
 		if err != nil || !bytes.Equal(got, want) {
 			return e.fail("Transaction.Get(%q) = %s, %v; transaction view has %s", k, short(got), err, short(want))
@@ -857,7 +915,10 @@ func (e *Env) trGet(k []byte) error {
 	if e.C.Poison && err == nil {
 		scribble(got)
 	}
-	has, herr := e.Tr.Has(k, nil)
+	has, herr := e.Tr.Has(ka, nil)
+	if !kIntact() {
+		return e.fail("Transaction.Has(%q) modified its key argument or the caller's bytes behind it", k)
+	}
 	if herr != nil || has != ok {
 		return e.fail("Transaction.Has(%q) = %v, %v; transaction view says %v", k, has, herr, ok)
 	}
@@ -867,7 +928,11 @@ func (e *Env) trGet(k []byte) error {
 
 func (e *Env) snapGet(h *snapH, k []byte) error {
 	want, ok := h.m.Get(k)
-	got, err := h.s.Get(k, nil)
+	ka, kIntact := guarded(k)
+	got, err := h.s.Get(ka, nil)
+	if !kIntact() {
+		return e.fail("Snapshot.Get(%q) modified its key argument or the caller's bytes behind it", k)
+	}
 	if ok {
 		if err != nil || !bytes.Equal(got, want) {
 			return e.fail("Snapshot.Get(%q) = %s, %v; contents at creation had %s", k, short(got), err, short(want))
@@ -875,7 +940,10 @@ func (e *Env) snapGet(h *snapH, k []byte) error {
 	} else if err != leveldb.ErrNotFound {
 		return e.fail("Snapshot.Get(%q) = %s, %v; contents at creation had no such key", k, short(got), err)
 	}
-	has, herr := h.s.Has(k, nil)
+	has, herr := h.s.Has(ka, nil)
+	if !kIntact() {
+		return e.fail("Snapshot.Has(%q) modified its key argument or the caller's bytes behind it", k)
+	}
 	if herr != nil || has != ok {
 		return e.fail("Snapshot.Has(%q) = %v, %v; contents at creation say %v", k, has, herr, ok)
 	}
@@ -968,10 +1036,10 @@ func (e *Env) walk(h *iterH, moves []Move) error {
 			got, want = it.Last(), cur.Last()
 		case "seek":
 			k := e.key(mv.K)
-			ka := append([]byte{}, k...)
+			ka, kIntact := guarded(k)
 			got, want = it.Seek(ka), cur.Seek(k)
-			if !bytes.Equal(ka, k) {
-				return e.fail("iterator Seek modified its argument")
+			if !kIntact() {
+				return e.fail("iterator Seek(%q) modified its key argument or the caller's bytes behind it", k)
 			}
 			if e.C.Poison {
 				scribble(ka)
@@ -1112,9 +1180,73 @@ func (e *Env) Finish() error {
 }
 
 // Run executes a case; it returns the statistics and the first violation.
+// Run executes a case. The steps run in their own goroutine under a watchdog: if a call
+// has not returned and the storage has not seen a single operation for HangSeconds, the
+// call is reported as one that never returns (with the stacks of the goroutines inside the
+// DB). Elapsed time alone is never the criterion - a slow machine keeps making progress.
 func Run(c *Case) (st *Stats, err error) {
+	type res struct {
+		st  *Stats
+		err error
+	}
+	var cur atomic.Int64
+	envC := make(chan *Env, 1)
+	done := make(chan res, 1)
+	go func() {
+		st, err := run(c, &cur, envC)
+		done <- res{st, err}
+	}()
+	e := <-envC
+	last, lastAt := -1, time.Now()
+	tick := time.NewTicker(500 * time.Millisecond)
+	defer tick.Stop()
+	for {
+		select {
+		case r := <-done:
+			return r.st, r.err
+		case <-tick.C:
+			if n := e.FS.Ops() + e.FS.Reads(); n != last {
+				last, lastAt = n, time.Now()
+			} else if time.Since(lastAt) > time.Duration(HangSeconds)*time.Second {
+				i := int(cur.Load())
+				what := "Open/Finish"
+				if i >= 0 && i < len(c.Ops) {
+					what = c.Ops[i].T
+				}
+				stx := e.St
+				return &stx, &Violation{Op: i, Msg: fmt.Sprintf("op #%d (%s) did not return: the call is still in progress and the storage has not seen an operation for %ds\n%s", i, what, HangSeconds, dbStacks())}
+			}
+		}
+	}
+}
+
+// HangSeconds is the no-progress bound of the watchdog in Run.
+var HangSeconds = 40
+
+func dbStacks() string {
+	buf := make([]byte, 1<<20)
+	n := runtime.Stack(buf, true)
+	var out []string
+	for _, g := range strings.Split(string(buf[:n]), "\n\n") {
+		if strings.Contains(g, "goleveldb/leveldb") {
+			lines := strings.Split(g, "\n")
+			if len(lines) > 16 {
+				lines = lines[:16]
+			}
+			out = append(out, strings.Join(lines, "\n"))
+		}
+		if len(out) >= 12 {
+			break
+		}
+	}
+	return strings.Join(out, "\n\n")
+}
+
+func run(c *Case, cur *atomic.Int64, envC chan *Env) (st *Stats, err error) {
 	e := NewEnv(c)
 	LastEnv = e
+	cur.Store(-1)
+	envC <- e
 	defer func() {
 		if x := recover(); x != nil {
 			err = e.fail("panic in the calling goroutine: %v\n%s", x, debug.Stack())
@@ -1131,10 +1263,12 @@ func Run(c *Case) (st *Stats, err error) {
 		return
 	}
 	for i := range c.Ops {
+		cur.Store(int64(i))
 		if err = e.Step(i, &c.Ops[i]); err != nil {
 			return
 		}
 	}
+	cur.Store(int64(len(c.Ops)))
 	err = e.Finish()
 	return
 }
